@@ -4,6 +4,7 @@ use crate::host::{Host, Obs, Res};
 use crate::model::*;
 
 pub mod c02;
+pub mod c03;
 pub mod c04;
 pub mod c08;
 pub mod c09;
@@ -17,7 +18,7 @@ pub mod c17;
 pub mod inject;
 
 pub fn all() -> Vec<&'static PropertyDef> {
-    vec![&c02::DEF, &c04::DEF, &c08::DEF, &c09::DEF, &c10::DEF, &c11::DEF, &c12::DEF, &c13::DEF, &c15::DEF, &c16::DEF, &c17::DEF]
+    vec![&c02::DEF, &c03::DEF, &c04::DEF, &c08::DEF, &c09::DEF, &c10::DEF, &c11::DEF, &c12::DEF, &c13::DEF, &c15::DEF, &c16::DEF, &c17::DEF]
 }
 
 pub fn find(id: &str) -> Option<&'static PropertyDef> {
